@@ -153,6 +153,16 @@ CLAIMS = {
           'Tie: SourceGrouper on dyadic positions with exact ties at the separation vs the Lean component model; group ids/sizes, npixfit, invalid-position test and flag bits of real PSFPhotometry results vs the model.',
   'note': 'Trusted: Lean kernel + standard axioms; hand model tied by differential testing; astropy fitters, error estimates and the local-background estimator not modelled; very close blends (< 1 FWHM) are outside the generated scenes because convergence of the optimiser is not part of the model.',
  },
+ 'C13': {
+  'design_ref': 'DESIGN.md §5 C13',
+  'technique': 'Lean 4 theorems for the algebraic content (telescoping normalisation over an abstract CDF, rotation identity, sample-point transform, bilinear weights with clamping) + correspondence of the index model and numeric probes',
+  'text': 'Proved in Lean: pixel-integrated profiles that are differences of a cumulative function telescope, for every cumulative function, centre and width - over any pixel run the sum is F(end) - F(start), and the separable 2-D form sums to flux·ΔFx·ΔFy, hence to the flux as the window grows (prf_telescopes, prf2d_window_sum); '
+          'the exponent of the elliptical Gaussian with equal widths is rotation invariant given cos²+sin²=1 (rotation_invariant_radius); sigma and FWHM forms agree (sigma_fwhm_forms_agree); ImagePSF: at x0 + (i-origin)/oversampling the array coordinate is exactly i, valid iff 0 <= i <= n-1 (imagepsf_sample_point, sample_valid_iff); '
+          'GriddedPSFModel: the four weights are non-negative and sum to 1 for every position, are (1,0,0,0)/(0,0,0,1) at the nodes, are the bilinear ones inside a cell and those of the clamped position outside; a zero-width cell of a single-row/column grid still gives weights summing to 1 '
+          '(bilinear_weights_convex, gridded_at_node, gridded_bilinear_in_cell, gridded_clamped_outside, degenerate_cell_weights). [partial] erf, Moffat/Airy integrals and the cubic splines are not modelled: PRF pixel sums, PSF integrals, non-negativity, centring, linearity and sample-point reproduction are numeric probes on the implementation. '
+          'Tie: bounding nodes and weights of GriddedPSFModel on dyadic layouts (3x3, 2x2, 2x3, single row/column/point; on nodes, cell edges, outside the hull) and the ImagePSF coordinate transform compared with the Lean model.',
+  'note': 'Trusted: Lean kernel + standard axioms; hand model tied by differential testing; scipy RectBivariateSpline, erf. Known finding F19: rotated GaussianPRF is not a pixel integral.',
+ },
 }
 
 _todo = 'check not built yet in this round (see DESIGN.md §10 build order); not claimed until its machinery is committed'
